@@ -30,3 +30,8 @@ pub fn fixed_random_state() -> std::hash::RandomState {
 pub fn fmt_stub(_args: core::fmt::Arguments<'_>) -> String {
     String::new()
 }
+
+/// `true` under the model checker (where `#[kani::stub(is_stubbed, yes)]` is applied), `false` in native replay,
+/// where stubs are not applied and the real functions run.
+pub fn is_stubbed() -> bool { false }
+pub fn yes() -> bool { true }
